@@ -110,7 +110,9 @@ var messageCache = []msgCacheInfo{
 // rather substantial benefits for performance.
 func (m *Message) Free() {
 	if m != nil {
-		if atomic.AddInt32(&m.refcnt, -1) == 0 {
+		n := atomic.AddInt32(&m.refcnt, -1)
+		verifOnFree(m, n)
+		if n == 0 {
 			for i := range messageCache {
 				if m.bsize == messageCache[i].maxbody {
 					messageCache[i].pool.Put(m)
@@ -126,7 +128,7 @@ func (m *Message) Free() {
 // If a read-only copy needs to be made "unique", callers can do so by
 // using the Uniq function.
 func (m *Message) Clone() {
-	atomic.AddInt32(&m.refcnt, 1)
+	verifOnClone(m, atomic.AddInt32(&m.refcnt, 1))
 }
 
 // MakeUnique ensures that the message is not shared.  If the reference
@@ -178,5 +180,6 @@ func NewMessage(sz int) *Message {
 	m.Body = m.bbuf
 	m.Header = m.hbuf
 	atomic.StoreInt32(&m.refcnt, 1)
+	verifOnNew(m)
 	return m
 }
